@@ -21,6 +21,9 @@ def run(pid, tier, replay):
         if pid == "C03":
             from . import net_c03
             return net_c03.run(tier)
+        if pid == "C05":
+            from . import net_c05
+            return net_c05.run(tier)
         print(f"unknown property {pid}")
         return 2
     except C.BuildError as e:
